@@ -564,6 +564,8 @@ pub fn cases_c17(tier: &str, seed: u64) -> Vec<Case> {
     let thorough = tier == "thorough";
     let mut rng = ChaCha8Rng::seed_from_u64(seed ^ 0xc17);
     let mut v = vec![];
+    let mut v_extra: Vec<Case> = vec![];
+    fn vcases_push(v: &mut Vec<Case>, c: Case) { v.push(c); }
     let progs = server::programs();
     let two: Vec<&Program> = progs.iter().filter(|p| p.parties == 2).collect();
     let n_cases = if thorough { 2500 } else { 400 };
@@ -622,6 +624,37 @@ pub fn cases_c17(tier: &str, seed: u64) -> Vec<Case> {
             }
         }
     }
+    // every party's compilation fails (a party delivers its constant under another name than the program
+    // reads): the policies end, with or without output destination, and every permit comes back
+    for (pi, prog) in [&progs[3], &progs[6]].into_iter().enumerate() {
+        let n = prog.parties;
+        for leader in 0..n {
+            for url in [true, false] {
+                for bad in 0..n {
+                    if !thorough && (leader + bad + pi) % 2 == 1 {
+                        continue;
+                    }
+                    let mask = vec![url; n];
+                    let inp: Vec<u64> = (0..n as u64).map(|p| 9 + 31 * p).collect();
+                    let mut sc = base_scenario(prog, leader, &mask, &inp, Strategy::Script(vec![]), 0x17d00 + pi as u128);
+                    sc.concurrency = 1;
+                    // rename the constant of party `bad` in its own policy only
+                    let v = serde_json::to_value(&sc.policies[0][bad]).unwrap_or(Value::Null);
+                    let mut v2 = v.clone();
+                    if let Some(m) = v2["constants"].as_object_mut() {
+                        let renamed: serde_json::Map<String, Value> = m.iter().map(|(k, val)| (format!("{k}_RENAMED"), val.clone())).collect();
+                        *m = renamed;
+                    }
+                    if let Ok(p2) = serde_json::from_value(v2) {
+                        sc.policies[0][bad] = p2;
+                    }
+                    v.as_null();
+                    vcases_push(&mut v_extra, Case { prop: "C17", key: format!("compile-error {} L{leader} url={url} misnamed-constant-at-p{bad}", prog.name), sc, progs: vec![(*prog).clone()], inputs: vec![inp.clone()], out_masks: vec![mask.clone()], leaders: vec![leader], mismatch: Some((bad, "compile-error")), mt: None });
+                }
+            }
+        }
+    }
+    v.extend(v_extra);
     // three parties: the failing call goes to the first, the second, ... follower (k-th issued call of its kind)
     for (pi, prog) in [&progs[4], &progs[6]].into_iter().enumerate() {
         for kind in [RpcKind::Validate, RpcKind::Run, RpcKind::Consts] {
@@ -647,6 +680,19 @@ pub fn cases_c17(tier: &str, seed: u64) -> Vec<Case> {
 
 fn judge_c17(c: &Case, rec: &RunRecord) -> Vec<(String, Value)> {
     let mut out = vec![];
+    if let Some((_, "compile-error")) = c.mismatch {
+        if rec.quiescent {
+            for (cc, p, finished, _) in &rec.actors {
+                if !*finished {
+                    out.push((format!("after a compile error the policy lingers (state machine still running, output destination {})", if c.out_masks[*cc][*p] { "present" } else { "absent" }), json!({"party": p, "permits": rec.permits})));
+                }
+            }
+            if rec.permits.iter().any(|x| *x != c.sc.concurrency) {
+                out.push(("after all policies ended with a compile error a concurrency permit is still held".to_string(), json!({"permits": rec.permits, "budget": c.sc.concurrency})));
+            }
+        }
+        return out;
+    }
     for (p, m) in rec.max_open_runs.iter().enumerate() {
         if *m > c.sc.concurrency {
             out.push(("a party ran more computations as leader at the same time than its configured concurrency".to_string(), json!({"party": p, "open_runs": m, "concurrency": c.sc.concurrency})));
